@@ -3,6 +3,7 @@
    Conf/ConfSpec.v (events of a document, represents, concrete syntax of rendered documents). *)
 From Coq Require Import List NArith ZArith.
 From TarsV Require Import Base.Hex Conf.Conf Conf.ConfSpec Conf.ConfProofs.
+From TarsV Require Endpoint.Parse.
 Import ListNotations.
 Open Scope N_scope.
 
@@ -48,7 +49,7 @@ Proof. exact ConfProofs.content_lines_join. Qed.
    not) is read as exactly its key = value lines, in order, with exactly the written keys and values *)
 Theorem C17_grammar_lines_read : forall ls b, Forall gline_ok ls ->
   content_lines (gtext ls b) = flat_map gline_text ls /\ map line_kv (flat_map gline_text ls) = flat_map gline_kv ls.
-Proof. intros ls b H. split; [apply ConfProofs.gtext_read; exact H | apply (ConfProofs.glines_read ls H)]. Qed.
+Proof. exact ConfProofs.grammar_lines_read. Qed.
 
 (* end to end: a document of the grammar (any nesting, layout, entity spelling) is accepted, and /path<key> is the
    value of the last key = value line with that key written directly in the domains of that path (string, int,
@@ -90,6 +91,15 @@ Theorem C17_value_exact : forall s evs, represents s evs -> forall p v, analysis
   (forall d, get_int32_def s p d = Ok (match atoi32 x with Some z => z | None => d end)) /\
   (forall d, get_bool_def s p d = Ok (match parse_bool x with Some b => b | None => d end)).
 Proof. exact ConfProofs.value_exact. Qed.
+
+(* "the parsed value": an integer written in decimal (strconv.Itoa / %d form) inside the width parses to itself;
+   outside the width the conversion fails, i.e. the getter returns the supplied default *)
+Theorem C17_int_parsed : forall z,
+  ((-9223372036854775808 <= z <= 9223372036854775807)%Z -> atoi (Endpoint.Parse.dec z) = Some z) /\
+  ((-2147483648 <= z <= 2147483647)%Z -> atoi32 (Endpoint.Parse.dec z) = Some z) /\
+  (~ (-2147483648 <= z <= 2147483647)%Z -> atoi32 (Endpoint.Parse.dec z) = None) /\
+  (~ (-9223372036854775808 <= z <= 9223372036854775807)%Z -> atoi (Endpoint.Parse.dec z) = None).
+Proof. exact ConfProofs.int_parsed. Qed.
 
 (* ... and the default / empty listings when nothing is written there *)
 Theorem C17_absent_defaults : forall s evs, represents s evs -> forall p v, analysis_path p = Ok v ->
@@ -157,6 +167,7 @@ Print Assumptions C17_path_domain.
 Print Assumptions C17_path_key.
 Print Assumptions C17_lines_exact.
 Print Assumptions C17_value_exact.
+Print Assumptions C17_int_parsed.
 Print Assumptions C17_absent_defaults.
 Print Assumptions C17_listing_getters.
 Print Assumptions C17_subdomains_exact.
